@@ -557,8 +557,10 @@ func (s *State) convert(instr *ssa.Convert) Val {
 		s.assume(app(">=", app("blen", r.S), "1"))
 		s.assume(eq(app("vlen", r.S), ite(eq(x.S, "10"), "0", "1")))
 		s.assume(eq(app("nl", r.S), ite(eq(x.S, "10"), "1", "0")))
-		s.assume(eq(app("runeOf", r.S), x.S))
 		s.c.declare("runeOf", "(declare-fun runeOf (Str) Int)")
+		s.c.declare("chrOf", "(declare-fun chrOf (Int) Str)")
+		s.assume(eq(app("runeOf", r.S), x.S))
+		s.assume(eq(r.S, app("chrOf", x.S)))
 		s.c.declare("isControl", "(define-fun isControl ((r Int)) Bool (or (and (<= 0 r) (<= r 31)) (and (<= 127 r) (<= r 159))))")
 		s.assume(eq(app("clean", r.S), or(eq(x.S, "10"), not(app("isControl", x.S)))))
 		s.assume(eq(app("digits", r.S), and(app("<=", "48", x.S), app("<=", x.S, "57"))))
@@ -861,7 +863,11 @@ func (s *State) step(instr ssa.Instruction) {
 		} else {
 			d.fnv = s.valOf(x.Call.Value)
 		}
-		s.defers = append(s.defers, d)
+		if n := len(s.frames); n > 0 {
+			fr := s.frames[n-1]
+			fr.defers = append(append([]deferredCall(nil), fr.defers...), d)
+			s.frames = append(s.frames[:n-1:n-1], fr)
+		}
 	case *ssa.RunDefers:
 		panic("rundefers must be handled by runFrom")
 	case *ssa.Range, *ssa.Next, *ssa.Select, *ssa.Send:
